@@ -148,18 +148,49 @@ func c05Catalogue(ctx *core.Ctx) ([]FaultCase, error) {
 				}
 				cases = append(cases, fc)
 			}
+			// a sender that replaces a message the recipient already holds (first copy honest, second copy altered,
+			// delivered while the recipient is still in the round that awaits it)
+			addReplace := func(dev int, f fi, kind string) {
+				fc := FaultCase{Sc: sc, Dev: dev, Type: ws.Type, Replace: true, Spec: tamper.Spec{Field: f.name, Index: f.idx, Kind: kind}}
+				fc.Sc.Strategy = fmt.Sprintf("devdup:%d", dev)
+				if ws.Kind == "P" {
+					for _, g := range recipientsOf(sc, ws.Type, dev) {
+						fc.To = g
+						break
+					}
+				}
+				cases = append(cases, fc)
+			}
 			if !ctx.Thorough() {
-				// one alteration per (protocol, message type), rotating field / kind / position with the seed;
-				// cheap protocols get three
-				n := 1
-				if r.base.cost <= 1 {
-					n = 3
+				// one alteration per (protocol, message type, field name), rotating index class / kind / position of the
+				// deviating party with the seed; plus one replacement per message type
+				byName := map[string][]fi{}
+				var names []string
+				for _, f := range fis {
+					if _, ok := byName[f.name]; !ok {
+						names = append(names, f.name)
+					}
+					byName[f.name] = append(byName[f.name], f)
 				}
-				for k := 0; k < n; k++ {
-					f := fis[(rot+ti+k*7)%len(fis)]
-					add(devs[(rot+ti+k)%3], f, kinds[(rot+ti+k)%len(kinds)])
+				for ni, name := range names {
+					fs := byName[name]
+					f := fs[(rot+ti+ni)%len(fs)]
+					add(devs[(rot+ti+ni)%3], f, kinds[(rot+ti+ni)%len(kinds)])
 				}
+				f := fis[(rot+ti)%len(fis)]
+				addReplace(devs[(rot+ti)%3], f, []string{"plus1", "random"}[(rot+ti)%2])
 				continue
+			}
+			for di, dev := range devs {
+				if di > 0 && dev == devs[di-1] {
+					continue
+				}
+				for fi_, f := range fis {
+					if r.base.cost > 1 && (fi_+di)%3 != 0 {
+						continue
+					}
+					addReplace(dev, f, "plus1")
+				}
 			}
 			for di, dev := range devs {
 				if di > 0 && dev == devs[di-1] {
